@@ -144,7 +144,10 @@ func Order() {
 			results = append(results, resultView{r.Task, r.Skipped})
 		}
 	}
-	sym.Observe("ran", strings.Join(runner.ran, ","))
+	// the order among independent tasks depends on map iteration (random natively, a decision in
+	// the engine): keys starting with "~" are informational and never compared between the two
+	sym.Observe("~ran", strings.Join(runner.ran, ","))
+	sym.Observe("ran-set", strings.Join(sortedCopy(runner.ran), ","))
 	sym.Observe("error", err != nil)
 
 	if wantErr != "" {
